@@ -67,6 +67,8 @@ result, (e) calls from a second thread.  "script" / "cliseq" / "multiset" are th
                                       compared after the call
   gambit query -o OUT -f FMT          per invocation: CLIContext, exporter from         cli,       -        cliseq   cliseq   -
     [--strict] [-c N] FILES           get_exporter(), database session; across          cliseq
+    | -l LISTFILE --ldir DIR          (list-file form: stream cli, pathform=listfile;
+                                      no state of its own: the list is read once)
                                       invocations of one process: module state of
                                       gambit.cli / gambit.results, the OUT path
                                       (one path for all invocations of a case),
@@ -101,6 +103,25 @@ Input dimensions of the CSV clause ("parses back correctly") and the stream that
   exporter's no-dialect defaults without the file ceasing to parse; no dialect whose QUOTING or ESCAPING the reader depends on was exported.
 Kind dialect: see k_dialect.
 
+Input dimensions of the archive clause ("reconstructs a results object equal to the original") and of the query block of the JSON
+export that are not CSV-visible, and the stream that varies each one:
+
+  dimension                              values                                                                    stream
+  source file of a query                 absent / present (format fasta genbank, compression None gzip)            query built multiset script dialect
+  PATH of the source file                PATH_SHAPES: absolute, bare name, relative, './' and '/./', an up-level     query built (stream paths-enumerated:
+                                         component '..' in the middle / at the start / several / above the root /   every shape on a real query and on a
+                                         after a leading one, '//' at the start and inside, trailing '/', '~' and   hand-built object of database 0), and
+                                         '~user', '$VAR' and '${VAR}', %XX, backslashes, '.hidden' and '...',       at random in every stream that draws
+                                         outer spaces, upper case, NFD and NFC accents, 40 components; random       its files from _rand_files (query built
+                                         component lists over '..' '.' '' '~' '$X'.  Expected value: the string     multiset script dialect)
+                                         pathlib holds in the ORIGINAL object (abs_results), which the model
+                                         writer copies into its archive / JSON text
+  how the CLI is told the query files    positional absolute paths; positional paths with an interior '..';        cli (pathform), cliseq (absolute only)
+                                         -l LISTFILE --ldir DIR with entries '../NAME' (source file = DIR/../NAME)
+  Before this table: every source file path was '/data/NAME.fa' (API streams) or an absolute normal path of the scratch directory (CLI), on
+  which every path-rewriting function (normpath, abspath, realpath, expanduser, expandvars, normcase) is the identity, and -l / --ldir was
+  never used; a writer or reader that stores a REWRITTEN path could not be seen.
+
 The unchanged exporter writes a lone carriage return unquoted (DESIGN.md 6-i).  The harness probes
 once whether the implementation under test quotes it; if not, the designated case
 (kind 'lonecr', label 'a\\rb') reports it and lone CRs are kept out of the random name pools so
@@ -119,7 +140,8 @@ PROP = 'C11'
 RULE = ('results: a result set (real query via API or CLI on a generated database, or hand-built) '
         'exported as csv + json + archive; non-trivial when a CSV-visible string contains one of '
         ', " LF CR or a non-ASCII character, or an item has no prediction / an unreportable predicted '
-        'taxon / a failed strict result / warnings / no source file.  '
+        'taxon / a failed strict result / warnings / no source file (counter paths:source-path-not-normal: some source file path holds '
+        'an up-level component that is not leading, i.e. os.path.normpath would change it).  '
         'multiset: a generated database with 2-3 genome sets over shared genomes, 2-6 result sets against them, archives read back '
         'by reader instances reused according to a schedule [[reader, result set], ...]; every loaded object is compared with its '
         'original (==, distances bit for bit, genome annotation of the right set); non-trivial when some reader instance reads more '
@@ -704,6 +726,8 @@ def check_results(ctx, kind, case, g, results, texts=None, cli_read=None, regist
 	a = abs_results(results)
 	if register:
 		ctx.case(case, nontrivial=_interesting(g, a))
+	if any(it['file'] is not None and os.path.normpath(it['file'][0]) != it['file'][0] for it in a['items']):
+		ctx.count('paths:source-path-not-normal')
 	er = enc_results(g, a)
 	xitems = [[enc_item(g, it), S(_dtok_csv(it['closest'][1]))] for it in a['items']]
 	exp_rows = [HEADER] + [expected_cells(g, it) for it in a['items']]
@@ -993,7 +1017,15 @@ def k_chunknone(ctx, cases):
 
 
 def k_cli(ctx, cases):
-	"""gambit -d DB query -o FILE -f FMT [--strict] FILES: outputs vs an API query on the same files"""
+	"""gambit -d DB query -o FILE -f FMT [--strict] FILES: outputs vs an API query on the same files.
+	case['pathform'] (default 'abs') is the way the query files are NAMED on the command line; the files themselves always
+	sit in the case's scratch directory Q:
+	  abs       positional arguments Q/<label>.fasta
+	  dotdot    positional arguments Q/sub/../<label>.fasta (an up-level component in the middle; Q/sub exists)
+	  listfile  -l LIST --ldir Q/sub with the lines ../<label>.fasta: the documented meaning of --ldir ("parent directory of
+	            paths in LISTFILE") makes the source file of each query Q/sub/../<label>.fasta
+	In every form the source file the exports must carry is the path as named (pathlib keeps an interior '..': collapsing it
+	changes the file that is meant when the component before it is a symbolic link)."""
 	import click.testing
 	import gambit.cli
 	from gambit.query import query_parse, QueryParams
@@ -1003,20 +1035,34 @@ def k_cli(ctx, cases):
 		gkeys = list(g.genomes)
 		qdir = os.path.join(STATE['scratch'], f'q{len(os.listdir(STATE["scratch"]))}')
 		os.makedirs(qdir)
-		paths = []
+		form = case.get('pathform', 'abs')
+		sub = os.path.join(qdir, 'sub')
+		if form != 'abs':
+			os.makedirs(sub)
+			ctx.count('cli:pathform-' + form)
+		paths, lines = [], []
 		for (gi, rate, sd), lab in zip(case['queries'], case['labels']):
 			rng = random.Random(f'C11-q-{sd}')
 			base = g.seqs[gkeys[gi % len(gkeys)]] if gi is not None else bytes(rng.choice(b'ACGT') for _ in range(3000))
 			p = os.path.join(qdir, lab + '.fasta')
 			with open(p, 'wb') as f:
 				f.write(b'>s1 x\n' + _mutate(rng, base, rate) + b'\n')
+			if form != 'abs':
+				lines.append('../' + lab + '.fasta')
+				p = sub + '/../' + lab + '.fasta'
 			paths.append(p)
+		file_args = paths
+		if form == 'listfile':
+			listpath = os.path.join(qdir, 'list.txt')
+			with open(listpath, 'w') as f:         # default encoding, as click.File('r') reads it
+				f.write(''.join(ln + '\n' for ln in lines))
+			file_args = ['-l', listpath, '--ldir', sub]
 		files = [SequenceFile(p, 'fasta', 'auto') for p in paths]
 		ref = query_parse(g.db, files, QueryParams(classify_strict=case['strict']), file_labels=case['labels'])
 		texts = {}
 		for fmt in ('csv', 'json', 'archive'):
 			out = os.path.join(qdir, 'out.' + fmt)
-			args = ['-d', g.dir, 'query', '-o', out, '-f', fmt, '--no-progress'] + (['--strict'] if case['strict'] else []) + paths
+			args = ['-d', g.dir, 'query', '-o', out, '-f', fmt, '--no-progress'] + (['--strict'] if case['strict'] else []) + file_args
 			r = click.testing.CliRunner().invoke(gambit.cli.cli, args)
 			if r.exit_code != 0:
 				ctx.violation('cli', case, f'gambit query -f {fmt} failed: exit {r.exit_code} {r.output[-300:]!r} {r.exception!r}')
@@ -2015,13 +2061,46 @@ def _rand_label(rng, pool):
 	return ''.join(rng.choice('ab ,"\né漢\U0001f600;\t') for _ in range(rng.randint(1, 8)))
 
 
+# Shapes of the PATH of a query's source file ({} = a file name).  A path is a value of the results object like any other
+# ("missing source file" is one element of the quantifier, a present one with an arbitrary path the other): whatever pathlib
+# makes of the string when the QueryInput is built is what the archive has to give back and the JSON export has to carry.
+# The shapes are those on which a path-rewriting function is NOT the identity (os.path.normpath / abspath / realpath /
+# expanduser / expandvars / normcase / basename, Path.resolve / absolute, unicodedata.normalize, URL quoting) next to the
+# plain ones on which all of them are.
+PATH_SHAPES = [
+	('abs', '/data/{}'), ('bare', '{}'), ('rel', 'runs/2021/{}'), ('rel-dot', './{}'), ('dot-mid', 'runs/./{}'),
+	('updir-mid', 'runs/../genomes/{}'), ('updir-mid-abs', '/data/runs/../genomes/{}'), ('updir-lead', '../genomes/{}'),
+	('updir-lead2', '../../{}'), ('updir-multi', 'a/b/../../c/{}'), ('updir-root', '/../{}'), ('updir-above', 'a/../../{}'),
+	('updir-after-lead', '../a/../{}'), ('dslash-lead', '//server/share/{}'), ('dslash-mid', 'runs//{}'), ('tslash', 'runs/{}/'),
+	('tilde', '~/genomes/{}'), ('tilde-user', '~nobody/{}'), ('envvar', '$HOME/${{TMPDIR}}/{}'), ('percent', 'a%20b/%7E/{}'),
+	('backslash', 'dir\\sub\\..\\{}'), ('dots-name', '.hidden/.../{}'), ('space', ' lead dir /{} '), ('upper', '/Data/GENOMES/{}'),
+	('nfd', 'e\u0301te\u0301/{}'), ('nfc', '\u00e9t\u00e9/{}'), ('deep', 'd/' * 40 + '{}'), ('updir-deep', 'd/../' * 12 + '{}'),
+]
+
+
+def _shape_path(shape, name):
+	return dict(PATH_SHAPES)[shape].format(name)
+
+
+def _rand_path(rng, pool):
+	r = rng.random()
+	name = rng.choice(pool).replace('\x00', '') + '.fa'
+	if r < 0.45:
+		return '/data/' + name
+	if r < 0.85:
+		return _shape_path(rng.choice(PATH_SHAPES)[0], name if rng.random() < 0.5 else rng.choice(['a.fasta', 'x y.fa', 'g\u00e9nome.fna.gz']))
+	# free combination of components
+	comps = [rng.choice(['..', '..', '.', '', 'a', 'b c', '~', '$X', '\u00e9', '...', 'A']) for _ in range(rng.randint(1, 6))]
+	return rng.choice(['', '/', '//', '///']) + '/'.join(comps) + '/' + name
+
+
 def _rand_files(rng, labels, pool):
 	out = []
 	for lab in labels:
 		if rng.random() < 0.4:
 			out.append(None)
 		else:
-			out.append(['/data/' + rng.choice(pool).replace('\x00', '') + '.fa', rng.choice(['fasta', 'genbank']), rng.choice([None, 'gzip'])])
+			out.append([_rand_path(rng, pool), rng.choice(['fasta', 'genbank']), rng.choice([None, 'gzip'])])
 	return out
 
 
@@ -2287,6 +2366,25 @@ def generate(ctx):
 			yield 'built', dict(db_seed=dbi, lone_cr=lone, **_gen_built(rng, pool, chunks))
 		ctx.count('stream:built', ctx.pick(12, 40))
 
+	# -- the path of the source file: every shape of PATH_SHAPES on one real query and one hand-built object per shape (database 0),
+	#    each result set mixing the shape with a plain absolute path and a query without source file
+	npath = 0
+	for shape, _ in PATH_SHAPES:
+		for how in ('query', 'built'):
+			names = [rng.choice(['a.fasta', 'x y.fa', 'g\u00e9nome.fna.gz', rng.choice(pool).replace('\x00', '') + '.fa']) for _ in range(2)]
+			files = [[_shape_path(shape, names[0]), 'fasta', None], None, ['/data/' + names[1], 'fasta', 'gzip'], [_shape_path(shape, names[1]), 'genbank', 'gzip']]
+			if how == 'query':
+				spec = _gen_query(rng, pool, chunks)
+				k = len(spec['labels'])
+				spec['files'] = (files * 2)[:k]
+			else:
+				spec = _gen_built(rng, pool, chunks)
+				k = len(spec['labels'])
+				spec['files'] = (files * 2)[:k]
+			yield how, dict(db_seed=0, lone_cr=lone, **spec)
+			npath += 1
+	ctx.count('stream:paths-enumerated', npath)
+
 	# -- the CSV export under a csv DIALECT: every way of passing one, alone and with keyword overrides; read back with the same
 	#    (a) small scope, enumerated: every standard and harness dialect x every way of passing it x (alone + each override of the
 	#        pool), on two designated hand-built result sets per database 0: A without carriage returns, B with them
@@ -2336,6 +2434,21 @@ def generate(ctx):
 			yield 'cli', dict(db_seed=dbi, lone_cr=lone, strict=strict, labels=labels,
 			                  queries=[[rng.choice([None, rng.randrange(100)]), rng.choice([0.0, 0.01, 0.05]), rng.randrange(10 ** 6)] for _ in range(k)])
 			ctx.count('stream:cli')
+	# the same command with the query files NAMED differently (see k_cli): an up-level component inside a positional argument, and
+	# a list file whose entries are relative to --ldir.  List-file lines are stripped and split at line ends by the command, so
+	# the names of that form hold no line end and no outer white space
+	lf_pool = [x for x in fn_pool if x == x.strip() and not any(c in x for c in '\n\r\x0b\x0c\x1c\x1d\x1e\x85\u2028\u2029')]
+	for dbi in range(ctx.pick(2, 6)):
+		for form in ('dotdot', 'listfile'):
+			k = rng.randint(2, 3)
+			labels = []
+			while len(labels) < k:
+				lab = rng.choice(lf_pool if form == 'listfile' else fn_pool) + rng.choice(['', '1', ' \u00e9'])
+				if lab not in labels and len(lab.encode()) < 100 and lab not in ('sub', 'list', 'out'):
+					labels.append(lab)
+			yield 'cli', dict(db_seed=dbi, lone_cr=lone, strict=rng.random() < 0.5, labels=labels, pathform=form,
+			                  queries=[[rng.choice([None, rng.randrange(100)]), rng.choice([0.0, 0.01, 0.05]), rng.randrange(10 ** 6)] for _ in range(k)])
+			ctx.count('stream:cli-pathforms')
 
 	# -- several genome sets in one database over shared genomes; archives read back by reused reader instances
 	for dbi in range(ctx.pick(4, 14)):
